@@ -44,7 +44,7 @@ def build_cases(ctx, n: int) -> list[dict]:
     for i in range(-1, n):
         r = rng(f"C06:{i}")
         o = gs.Opts(mainstream=True, always_opid=True, max_ops=3, enum_params=False, formats=("date-time", "date"),
-                    default_response=True, error_responses=True, streaming=(i % 5 == 0), component_responses=(i % 2 == 1), error_only_ops=True)
+                    default_response=True, error_responses=True, streaming=(i % 5 == 0), component_responses=(i % 2 == 1), error_only_ops=True, multi_tags=(i % 2 == 0))
         doc = gs.gen_spec(r, o) if i >= 0 else WITNESS_DOC   # case -1: the recorded findings' witness document
         calls = []
         for path, m, op, pl in opsrig.ops_of(doc):
@@ -60,9 +60,11 @@ def build_cases(ctx, n: int) -> list[dict]:
                     body = b"" if s < 200 or s in (204, 304) else r.choice([json.dumps({"message": "x"}), json.dumps({"detail": "d", "title": "t"}), "[1, 2]", '"oops"', "7", "null",
                                                                             "not json at all", "", json.dumps({"error": {"code": 1}})]).encode()
                     import base64
-                    calls.append({**base, "transport": tr, "status": s, "declared": s in declared_err, "has_default": has_default,
-                                  "default_content": default_content, "op": {"path": path, "method": m, "operationId": op["operationId"]},
-                                  "reply": {"status": s, "headers": {"content-type": "application/json"}, "body_b64": base64.b64encode(body).decode()}})
+                    # an operation filed under several tags is rendered once per tag client: every rendering is called
+                    for loc in opsrig.locate_all(op):
+                        calls.append({**base, **loc, "transport": tr, "status": s, "declared": s in declared_err, "has_default": has_default,
+                                      "default_content": default_content, "op": {"path": path, "method": m, "operationId": op["operationId"], "via": loc["module"]},
+                                      "reply": {"status": s, "headers": {"content-type": "application/json"}, "body_b64": base64.b64encode(body).decode()}})
         pkg, core = [("pkg.client", None), ("client", None), ("client", "core"), ("pkg.client", "shared.core"), ("a.b.client", None)][(i + 1) % 5]
         cases.append({"id": f"c06-{i}", "doc": doc, "calls": calls, "package": pkg, "core": core})
     return cases
